@@ -133,4 +133,77 @@ theorem handshake_err_unchanged {ra : Ra} {ph : Nat} {p : Pkt} (h : (handshake r
   · exact h1
   · exact absurd h2 h
 
+-- ---------------------------------------------------------------- the IRO plan steps
+
+/-- the record an accepted `MsgCreatePlan` writes -/
+def planned (now : Nat) (ra : Ra) (alloc : Int) (dur : Nat) (te : Bool) : Ra :=
+  { ra with gi := { ra.gi with sealed := true },
+            preLaunch := some (if te then planPreLaunch now dur else now + tenYears),
+            plan := some (alloc, false), te := te,
+            pstart := (if te then some now else none), pdur := dur }
+
+/-- shape of an accepted `plan` step, whatever the trading flag -/
+theorem stepPlan_ok {s : St} {r : Nat} {owner : Bool} {alloc : Int} {dur : Nat} {te : Bool}
+    (h : (stepPlan s r owner alloc dur te).2 = .ok) :
+    ∃ ra, getRa s r = some ra ∧ owner = true ∧ ra.plan = none ∧ ra.launched = false ∧ ra.gi.sealed = false ∧
+      stepPlan s r owner alloc dur te = (setRa s (planned s.now ra alloc dur te), .ok) := by
+  revert h
+  unfold stepPlan
+  cases hg : getRa s r with
+  | none => intro h; exact absurd h (by simp)
+  | some ra =>
+    simp only
+    repeat' split
+    all_goals intro h
+    all_goals first
+      | (simp at h; done)
+      | (refine ⟨ra, rfl, ?_, ?_, ?_, ?_, ?_⟩ <;> simp_all [planned])
+
+/-- the record an accepted `MsgEnableTrading` writes -/
+def enabled (now : Nat) (ra : Ra) : Ra :=
+  { ra with te := true, pstart := some now, preLaunch := some (planPreLaunch now ra.pdur) }
+
+/-- shape of an accepted `enable` step -/
+theorem stepEnable_ok {s : St} {r : Nat} {owner : Bool} (h : (stepEnable s r owner).2 = .ok) :
+    ∃ ra alloc, getRa s r = some ra ∧ owner = true ∧ ra.plan = some (alloc, false) ∧ ra.te = false ∧
+      stepEnable s r owner = (setRa s (enabled s.now ra), .ok) := by
+  revert h
+  unfold stepEnable
+  cases hg : getRa s r with
+  | none => intro h; exact absurd h (by simp)
+  | some ra =>
+    simp only
+    cases hp : ra.plan with
+    | none => intro h; exact absurd h (by simp)
+    | some pl =>
+      obtain ⟨alloc, settled⟩ := pl
+      simp only
+      repeat' split
+      all_goals intro h
+      all_goals first
+        | (simp at h; done)
+        | (refine ⟨ra, alloc, rfl, ?_, ?_, ?_, ?_⟩ <;> simp_all [enabled])
+
+/-- a refused `enable` step changes nothing -/
+theorem stepEnable_err {s : St} {r : Nat} {owner : Bool} (h : (stepEnable s r owner).2 ≠ .ok) :
+    stepEnable s r owner = (s, .err) := by
+  revert h
+  unfold stepEnable
+  repeat' split
+  all_goals intro h
+  all_goals first
+    | rfl
+    | exact absurd rfl h
+
+/-- a refused `plan` step changes nothing -/
+theorem stepPlan_err {s : St} {r : Nat} {owner : Bool} {alloc : Int} {dur : Nat} {te : Bool}
+    (h : (stepPlan s r owner alloc dur te).2 ≠ .ok) : stepPlan s r owner alloc dur te = (s, .err) := by
+  revert h
+  unfold stepPlan
+  repeat' split
+  all_goals intro h
+  all_goals first
+    | rfl
+    | exact absurd rfl h
+
 end DymVerif.GB
